@@ -15,7 +15,10 @@ def gen(rng, tier):
         if rng.random() < 0.12: G, D = common.thin_cut_game(rng); fam = "thincut"
         if rng.random() < 0.12 and G["edges"]:
             G, D = common.scale_game(rng, G, D); fam = fam + "*2^k"
-        cases.append({"G": G, "D": D, "fam": fam, "s": rng.randrange(1 << 30)})
+        c = {"G": G, "D": D, "fam": fam, "s": rng.randrange(1 << 30)}
+        if G["n"] >= 2 and rng.random() < 0.25:       # history on ONE divisor object: asked, moved to another class by a chip transfer, asked again
+            a, b = rng.sample(range(G["n"]), 2); c["move"] = [a, b, rng.randint(1, 3)]
+        cases.append(c)
     if tier == "thorough":
         import itertools
         for n in (2, 3):
@@ -36,10 +39,20 @@ def impl(c):
         out[key] = bool(EWD(d.graph, d, **kw)[0])
     d = common.build_impl_divisor(G, c["D"], rng=rng)
     out["isw"] = bool(is_winnable(d))
+    if c.get("move"):
+        names = G["names"]; a, b, k = c["move"]
+        e = common.build_impl_divisor(G, c["D"], rng=rng); EWD(e.graph, e); EWD(e.graph, e, optimized=True); is_winnable(e)      # every mode has seen this object
+        now = common.div_to_list(G, e); e.chip_transfer(names[a], names[b], k)
+        out["D2"] = common.div_to_list(G, e); out["moved_ok"] = out["D2"] == [x - k * (i == a) + k * (i == b) for i, x in enumerate(now)]
+        out["isw2"] = bool(is_winnable(e)); f = common.build_impl_divisor(G, out["D2"], graph=e.graph, rng=rng); f2 = common.build_impl_divisor(G, out["D2"], graph=e.graph, rng=rng)
+        out["opt2"] = bool(EWD(e.graph, e, optimized=True)[0]); out["plain2"] = bool(EWD(e.graph, e)[0]); out["fresh2"] = [bool(is_winnable(f)), bool(EWD(f2.graph, f2)[0])]
     return out
 
-def model_lines(c):
-    return [["ewd"] + common.enc_graph(c["G"]) + common.enc_list(c["D"]) + [0], ["ewd"] + common.enc_graph(c["G"]) + common.enc_list(c["D"]) + [1]]
+TWO_STAGE = True
+def model_lines(c, r=None):
+    ls = [["ewd"] + common.enc_graph(c["G"]) + common.enc_list(c["D"]) + [0], ["ewd"] + common.enc_graph(c["G"]) + common.enc_list(c["D"]) + [1]]
+    if r and "ok" in r and isinstance(r["ok"].get("D2"), list): ls.append(["ewd"] + common.enc_graph(c["G"]) + common.enc_list(r["ok"]["D2"]) + [0])
+    return ls
 
 def judge(c, r, mo):
     if "exc" in r:
@@ -50,13 +63,22 @@ def judge(c, r, mo):
     for k, want in (("plain", mp), ("plain_vis", mp), ("opt", mopt), ("opt_vis", mopt), ("isw", mopt)):
         if r["ok"][k] != want:
             out.append({"what": "verdict %s=%s but the verified model says %s" % (k, r["ok"][k], want)})
+    if "D2" in r["ok"] and len(mo) > 2 and mo[2][0] != "FUEL" and not out:
+        o = r["ok"]; w2 = mo[2][0] == "1"
+        if not o["moved_ok"]: out.append({"what": "chip_transfer on a divisor that had been analysed did not move the chips as requested"})
+        for k in ("isw2", "opt2", "plain2"):
+            if o[k] != w2: out.append({"what": "the same divisor object asked again after chip_transfer%s (now %s): %s=%s, the verified model says %s" % (tuple(c["move"]), o["D2"], k, o[k], w2)})
+        if o["fresh2"] != [w2, w2]: out.append({"what": "fresh divisor %s: verdicts %s, model %s" % (o["D2"], o["fresh2"], w2)})
     return out[:1]
 
 def oracle(c, r):
     m = oracle_mod.mk(c["G"]); truth = oracle_mod.winnable(m, c["D"])
     if r is None or "exc" in r:
         return {"violates": True, "why": "call did not return a verdict (%s); true winnability is %s" % (r, truth)}
-    bad = {k: v for k, v in r["ok"].items() if v != truth}
+    bad = {k: v for k, v in r["ok"].items() if k in ("plain", "opt", "plain_vis", "opt_vis", "isw") and v != truth}
+    if not bad and isinstance(r["ok"].get("D2"), list):
+        t2 = oracle_mod.winnable(m, r["ok"]["D2"]); bad = {k: r["ok"][k] for k in ("isw2", "opt2", "plain2") if r["ok"][k] != t2}
+        if bad: return {"violates": True, "truth_winnable_after_move": t2, "wrong": bad}
     return {"violates": bool(bad), "truth_winnable": truth, "wrong": bad}
 import oracle as oracle_mod
 
